@@ -1221,6 +1221,22 @@ pub fn hook_sched_yield() -> bool {
     }
 }
 
+/// a simulated thread sleeps: simulated time advances by the requested duration (nobody waits in real
+/// time) and the thread yields. Counted as a step, so a loop that sleeps forever meets the step budget.
+pub fn hook_sleep(ns: u64) -> bool {
+    match enter() {
+        Some(g) => {
+            let s = sim();
+            s.clock_ns = s.clock_ns.saturating_add(ns);
+            s.stats.yields += 1;
+            s.ev(g.tid, Pt::Yield, ns, 7);
+            s.sched_point(g.tid, Pt::Yield);
+            true
+        }
+        None => false,
+    }
+}
+
 pub fn hook_getrandom(buf: &mut [u8]) -> bool {
     match enter() {
         Some(_g) => {
